@@ -119,12 +119,11 @@ Fixpoint exp_ident_val_go (v : str) (orig : input) (l : input) : res tok :=
   end.
 Definition exp_ident_with_value (v : str) : P tok := fun i c => (exp_ident_val_go v i i, c).
 
-(* take_until(types): (rest after the terminator, body slice, terminator).  When no terminator is
-   found the code returns input[0 .. count-1]: the last token is dropped (finding D5) -- modelled
-   literally. *)
+(* take_until(types): (rest after the terminator, body slice, terminator).  The delimiting token
+   is not part of the slice; without a delimiter the slice is the whole input. *)
 Fixpoint take_until_go (tys : list ttype) (l : input) (acc : list tok) : input * list tok * option tok :=
   match l with
-  | [] => ([], rev (tl acc), None)                     (* count - 1 tokens *)
+  | [] => ([], rev acc, None)
   | t :: l' =>
       if existsb (tt_eqb (tty t)) tys then (l', rev acc, Some t)
       else take_until_go tys l' (t :: acc)
